@@ -43,6 +43,7 @@ import (
 	"testing"
 	"time"
 
+	"github.com/OffchainLabs/go-bitfield"
 	eth2api "github.com/attestantio/go-eth2-client/api"
 	eth2v1 "github.com/attestantio/go-eth2-client/api/v1"
 	eth2bellatrix "github.com/attestantio/go-eth2-client/api/v1/bellatrix"
@@ -58,7 +59,6 @@ import (
 	"github.com/attestantio/go-eth2-client/spec/electra"
 	eth2p0 "github.com/attestantio/go-eth2-client/spec/phase0"
 	"github.com/libp2p/go-libp2p/core/peer"
-	"github.com/OffchainLabs/go-bitfield"
 
 	"github.com/obolnetwork/charon/app/eth2wrap"
 	"github.com/obolnetwork/charon/app/log"
@@ -1093,8 +1093,8 @@ func sortedKeys(m map[string]bool) string {
 
 type signPlan struct {
 	secret    tbls.PrivateKey
-	dom       int    // -1: the object's own
-	forkEpoch int64  // -1: the object's own epoch
+	dom       int   // -1: the object's own
+	forkEpoch int64 // -1: the object's own epoch
 	otherGVR  bool
 }
 
